@@ -170,7 +170,8 @@ public:
     void rollback(std::size_t iteration) override
     {
         Checkpoint::rollback(iteration);
-        generators_.erase(generators_.begin() + iteration, generators_.end());
+        // keep the generator the run was started with and one generator for each remaining result
+        generators_.erase(generators_.begin() + (iteration + 1), generators_.end());
     }
 
     void serialize(std::ostream& out) const override
